@@ -224,6 +224,18 @@ func (sc *c12Scenario) Run(s *simrt.Sim) {
 			actors = append(actors, a)
 			index[a] = i
 		}
+		// a child that was closed stays registered under its (open) parent, also after the parent spawned again
+		{
+			s.Sleep(time.Nanosecond)
+			gone := actors[0].Spawn(effect)
+			gone.Close()
+			s.Sleep(time.Nanosecond)
+			next := actors[0].Spawn(effect)
+			if actors[0].GetChild(gone.GetID()) != gone || gone.GetParent() != actors[0] || actors[0].GetChild(next.GetID()) != next {
+				sc.extra = append(sc.extra, Violation{Clause: "registry", Fingerprint: "closed-child-unregistered-by-a-later-Spawn", Detail: "Spawn, Close of that child, Spawn again on the same open parent: GetChild/GetParent no longer connect the closed child and its parent (or the new child is not registered)"})
+			}
+			next.Close()
+		}
 		// registry checks
 		for i, p := range sc.Tree {
 			a := actors[i]
